@@ -211,7 +211,9 @@ def run(ctx):
         kind, text = c01.compare_target(ctx, py, t, mo)
         if kind == 'excluded': ctx.cov['tie_excluded'] += 1; continue
         ctx.count('model:%s' % id(t))
-        if kind and kind.startswith('output'):
+        if kind and kind.startswith('output:'):
+            ctx.violation('KrigingSystem:' + kind[7:], text, {'impl_case': sx_str(to_sx(py)), 'target': t['it'], 'site': c01.site_key(py)}); found_input = True
+        elif kind and kind.startswith('output'):
             ctx.violation('impl-vs-system:' + c01.site_key(py), text, {'impl_case': sx_str(to_sx(py)), 'target': t['it']}); found_input = True
         elif kind == 'internal':
             ctx.violation('model-drift:' + c01.site_key(py), text, {'impl_case': sx_str(to_sx(py)), 'target': t['it']}, found_input=False)
